@@ -49,7 +49,13 @@ class _symcmp:
 
 def run_map(u, periodic, reflective):
     with patched(mcmc, np=NpProxy(overrides={"where": sym_where})), _symcmp():
-        return mcmc.apply_boundary_conditions(u, periodic, reflective)
+        out = mcmc.apply_boundary_conditions(u, periodic, reflective)
+    # the code may substitute plain constants for some coordinates (e.g. np.where(cond, 0.0, x)): lift them so that every output is an FP term
+    flat = np.asarray(out, dtype=object)
+    lifted = np.empty(flat.shape, dtype=object)
+    for idx in np.ndindex(flat.shape):
+        lifted[idx] = SymFP.lift(flat[idx])
+    return lifted.view(type(sarr([0])))
 
 
 def bits_of(f: float) -> int:
